@@ -3,7 +3,7 @@
    run_from_str : from_str_code -> str -> fs_out   is the semantics of the emitted function body
    (phf lookup, then first matching arm of `match s`, then the fall-through expression). *)
 Require Export Strum.Model.Names.
-Open Scope char_scope.
+Local Open Scope char_scope.
 
 (* ---- `LitStr::parse::<syn::Path>()` on a literal without whitespace or generic arguments ---- *)
 Definition is_ident_start (c : ascii) : bool := is_alpha c || Ascii.eqb c "_".
